@@ -90,7 +90,7 @@ theorem degraded_other_table_not_atomic :
     ⟨0, 0, fun _ => 1, fun _ => 2, 1⟩, ⟨rfl, Or.inl rfl⟩, ⟨rfl, rfl, rfl⟩, ?_, ?_⟩
   · have := Crash.backupArray (pmFirst := false) (old := (⟨0, 0, fun _ => 1, fun _ => 1, 1⟩ : Disk Nat 1))
       (new := ⟨0, 2, fun _ => 2, fun _ => 2, 2⟩) (fun _ => true)
-    simpa [mix] using this
+    simpa [mix_all] using this
   · simp [read, readBackup]
 
 /-- the order primary array → primary header → backup array → backup header (protective MBR last) -/
@@ -146,7 +146,7 @@ theorem grown_rewrite_not_atomic :
       read R old = .ok (R.parts old.pa) false ∧ read R d = .err := by
   refine ⟨⟨fun s => if s = 0 then none else some s, fun s => if s = 0 then none else some s, fun a => a 0, fun a => a 0⟩,
     ⟨0, 1, fun _ => 1, fun _ => 0, 0⟩, ⟨0, 1, fun _ => 2, fun _ => 0, 0⟩, fun _ => 2, ⟨rfl⟩, rfl, ?_, ?_, ?_⟩
-  · simp [mix]
+  · simp [mix_all]
   · simp [read]
   · simp [read, readBackup]
 
